@@ -377,19 +377,41 @@ impl Ck {
 }
 
 #[derive(Clone, Copy, PartialEq, Eq, PartialOrd, Ord, Hash, Debug)]
-pub enum Route { Path, Reader, Writer, WriterRemoved }
+pub enum Route {
+  Path,
+  Reader,
+  Writer,
+  /// The path became absent under the open writer: `remove_file(path)`.
+  WriterRemoved,
+  /// ... the file was renamed away to a sibling outside the inspected path (the inode keeps a link).
+  WriterRenamed,
+  /// ... the file was hard-linked to a sibling, then the path removed (the inode keeps a link).
+  WriterHardlinked,
+}
+
+/// The three ways the path becomes absent under an open writer.
+const ABSENT_WRITER_ROUTES: [Route; 3] = [Route::WriterRemoved, Route::WriterRenamed, Route::WriterHardlinked];
+
+/// Sequences: which of them produces an Absent state at position `j`.
+fn absent_route_at(j: usize) -> Route { [Route::WriterHardlinked, Route::WriterRenamed, Route::WriterRemoved][j % 3] }
 
 impl Route {
   fn as_str(self) -> &'static str {
-    match self { Route::Path => "path", Route::Reader => "reader", Route::Writer => "writer", Route::WriterRemoved => "writer-removed" }
+    match self {
+      Route::Path => "path", Route::Reader => "reader", Route::Writer => "writer", Route::WriterRemoved => "writer-removed",
+      Route::WriterRenamed => "writer-renamed-away", Route::WriterHardlinked => "writer-hardlinked-then-removed",
+    }
   }
   fn parse(s: &str) -> Option<Route> {
-    [Route::Path, Route::Reader, Route::Writer, Route::WriterRemoved].into_iter().find(|r| r.as_str() == s)
+    [Route::Path, Route::Reader, Route::Writer, Route::WriterRemoved, Route::WriterRenamed, Route::WriterHardlinked].into_iter().find(|r| r.as_str() == s)
   }
   /// Does this route apply to a state of this kind? (writer: the task wrote the file; writer-removed: the task
   /// removed the file after creating the writer, so the state is Absent.)
   fn applies(self, k: Kind) -> bool {
-    match self { Route::Path | Route::Reader => true, Route::Writer => k == Kind::File, Route::WriterRemoved => k == Kind::Absent }
+    match self {
+      Route::Path | Route::Reader => true, Route::Writer => k == Kind::File,
+      Route::WriterRemoved | Route::WriterRenamed | Route::WriterHardlinked => k == Kind::Absent,
+    }
   }
 }
 
@@ -564,6 +586,9 @@ struct Ctx {
   target: PathBuf,
   /// Something may be at the target location.
   target_used: bool,
+  /// Sibling of the path that receives a file renamed away / hard-linked from the path under an open writer.
+  away: PathBuf,
+  away_used: bool,
 }
 
 /// Replaces every `SystemTime` debug text that is not one of the two logical instants (e.g. a link's own lstat
@@ -608,7 +633,7 @@ impl Ctx {
     Ok(Ctx {
       path: dir.join("p"), pie: Pie::default(), tally: Tally::default(), order: (0, 0), ck: None,
       observations: if replay { Some(Vec::new()) } else { None }, content_cache: BTreeMap::new(),
-      pool_dir: dir.to_path_buf(), pool: BTreeMap::new(), at_path: None, target: dir.join("t"), target_used: false,
+      pool_dir: dir.to_path_buf(), pool: BTreeMap::new(), at_path: None, target: dir.join("t"), target_used: false, away: dir.join("away"), away_used: false,
     })
   }
 
@@ -652,6 +677,11 @@ impl Ctx {
       let t = self.target.clone();
       self.clear_at(&t)?;
       self.target_used = false;
+    }
+    if self.away_used {
+      let a = self.away.clone();
+      self.clear_at(&a)?;
+      self.away_used = false;
     }
     Ok(())
   }
@@ -1053,21 +1083,32 @@ fn produce_via_writer(ctx: &mut Ctx, unit: &Unit, st: &St, junk_prior: bool) -> 
   Ok(Some(w))
 }
 
-/// Makes the path absent the way a task would: create a writer, write, remove the file; returns the writer.
-fn produce_absent_via_writer(ctx: &mut Ctx, unit: &Unit) -> H<Option<File>> {
+/// Makes the path absent the way a task would: create a writer, write, then make the path absent (`how`: remove the
+/// file; rename it away to a sibling; hard-link it to a sibling and remove the path -- in the last two the inode of the
+/// open writer still has a link, only the PATH is absent); returns the writer.
+fn produce_absent_via_writer(ctx: &mut Ctx, unit: &Unit, how: Route) -> H<Option<File>> {
   ctx.clear()?;
-  let path = ctx.path.clone();
-  let Some(mut w) = open_writer(ctx, unit, Some(Route::WriterRemoved), &St::Absent) else { return Ok(None); };
+  let (path, away) = (ctx.path.clone(), ctx.away.clone());
+  let Some(mut w) = open_writer(ctx, unit, Some(how), &St::Absent) else { return Ok(None); };
   ctx.tally.eval("C13/write-produces-content");
   if let Err(e) = w.write_all(b"written, then removed") {
     let obs = format!("writing through the handle returned by path.write failed: {}", e);
     ctx.observe(|| obs.clone());
-    ctx.finding("C13/write-produces-content", obs.clone(), unit.replay(ctx.ck, Some(Route::WriterRemoved), None, "writable handle", &obs));
+    ctx.finding("C13/write-produces-content", obs.clone(), unit.replay(ctx.ck, Some(how), None, "writable handle", &obs));
     return Ok(None);
   }
   // Explicit mtime on the doomed file: whatever a checker might read from the stale handle is deterministic.
   io_ctx(w.set_modified(instant(1)), "set_modified (writer, to be removed)", &path)?;
-  io_ctx(fs::remove_file(&path), "remove written file", &path)?;
+  match how {
+    Route::WriterRenamed => { io_ctx(fs::rename(&path, &away), "rename written file away", &path)?; ctx.away_used = true; }
+    Route::WriterHardlinked => {
+      io_ctx(fs::hard_link(&path, &away), "hard-link written file", &path)?;
+      ctx.away_used = true;
+      io_ctx(fs::remove_file(&path), "remove written file", &path)?;
+    }
+    _ => io_ctx(fs::remove_file(&path), "remove written file", &path)?,
+  }
+  if fs::symlink_metadata(&path).is_ok() { return Err(format!("{} still exists after making it absent", path.display())); }
   ctx.tally.materialisations += 1;
   if !ctx.tally.states.contains(&St::Absent) { ctx.tally.states.insert(St::Absent); }
   Ok(Some(w))
@@ -1169,13 +1210,14 @@ where C: ResourceChecker<PathBuf>, C::Stamp: PartialEq {
     }
   }
 
-  if want(Route::WriterRemoved) {
-    if let Some(w) = produce_absent_via_writer(ctx, unit)? {
+  for how in ABSENT_WRITER_ROUTES {
+    if !want(how) { continue; }
+    if let Some(w) = produce_absent_via_writer(ctx, unit, how)? {
       let sp = stamp_path(c, ctx, unit, s1);
-      let sw = stamp_writer(c, ctx, unit, Route::WriterRemoved, s1, w);
-      agree(ctx, unit, "C13/writer-removed-absent", s1, Route::Path, &sp, Route::WriterRemoved, &sw);
+      let sw = stamp_writer(c, ctx, unit, how, s1, w);
+      agree(ctx, unit, "C13/writer-removed-absent", s1, Route::Path, &sp, how, &sw);
       if let Some(s2) = s2 { ctx.materialise_after(s2)?; }
-      if let Some(s) = &sw { check_and_judge(c, ck, ctx, unit, Route::WriterRemoved, s1, target, untouched, None, s); }
+      if let Some(s) = &sw { check_and_judge(c, ck, ctx, unit, how, s1, target, untouched, None, s); }
     }
   }
   Ok(())
@@ -1192,7 +1234,7 @@ where C: ResourceChecker<PathBuf>, C::Stamp: PartialEq {
     let sp = stamp_path(c, ctx, unit, st);
     let sr = stamp_reader(c, ctx, unit, st);
     agree(ctx, unit, "C13/routes-agree", st, Route::Path, &sp, Route::Reader, &sr);
-    let wroute = if st.kind() == Kind::File { Route::Writer } else { Route::WriterRemoved };
+    let wroute = if st.kind() == Kind::File { Route::Writer } else { absent_route_at(j) };
     let sw = writer.and_then(|w| stamp_writer(c, ctx, unit, wroute, st, w));
     agree(ctx, unit, if wroute == Route::Writer { "C13/routes-agree" } else { "C13/writer-removed-absent" }, st, Route::Path, &sp, wroute, &sw);
     if let Some(s) = sp { fresh.push((j, Route::Path, s)); }
@@ -1218,7 +1260,7 @@ fn run_seq(ctx: &mut Ctx, unit: &Unit, states: &[St; 3]) -> H<()> {
     let st = &states[j];
     let writer = match st.kind() {
       Kind::File => match produce_via_writer(ctx, unit, st, false)? { Some(w) => Some(w), None => return Ok(()) },
-      Kind::Absent => match produce_absent_via_writer(ctx, unit)? { Some(w) => Some(w), None => return Ok(()) },
+      Kind::Absent => match produce_absent_via_writer(ctx, unit, absent_route_at(j))? { Some(w) => Some(w), None => return Ok(()) },
       Kind::Dir => { ctx.materialise_after(st)?; None }
     };
     let (w1, w2) = match &writer {
@@ -1442,6 +1484,38 @@ fn probe_names(root: &Path) -> H<(Vec<(Name, &'static str)>, Vec<(Name, String)>
   Ok((ok, skipped))
 }
 
+/// Recorded, never judged: the path is REPLACED under the open writer by a different file (another file renamed over
+/// it). The writer did not produce that state, so "a just-used writer yields the same stamp as the path" is not
+/// claimed by the property; the evidence only says what the real code does.
+fn probe_replaced_under_writer(root: &Path) -> H<Value> {
+  fn one<C: ResourceChecker<PathBuf>>(c: &C, ck: Ck, ctx: &mut Ctx) -> H<Value> where C::Stamp: PartialEq {
+    let unit = Unit::Pair { ck, s1: St::Absent, s2: None, route: None };
+    ctx.ck = Some(ck);
+    ctx.clear()?;
+    let (path, away) = (ctx.path.clone(), ctx.away.clone());
+    let Some(mut w) = open_writer(ctx, &unit, None, &St::Absent) else { return Ok(json!("path.write failed")); };
+    io_ctx(w.write_all(b"old content, written through the writer"), "write", &path)?;
+    io_ctx(w.set_modified(instant(0)), "set_modified", &path)?;
+    let mut other = io_ctx(File::create(&away), "create other file", &away)?;
+    io_ctx(other.write_all(b"a different file"), "write other file", &away)?;
+    io_ctx(other.set_modified(instant(1)), "set_modified", &away)?;
+    drop(other);
+    io_ctx(fs::rename(&away, &path), "rename other file over the path", &away)?;
+    let sp = stamp_path(c, ctx, &unit, &St::Absent);
+    let sw = stamp_writer(c, ctx, &unit, Route::Writer, &St::Absent, w);
+    Ok(match (sp, sw) { (Some(a), Some(b)) => json!(if a == b { "writer stamp equals path stamp" } else { "writer stamp differs from path stamp (the writer still refers to the replaced file)" }), _ => json!("stamping failed") })
+  }
+  let mut ctx = Ctx::new(&root.join("replaced"), false)?;
+  let out = json!({
+    "ExistsChecker": one(&ExistsChecker, Ck::Exists, &mut ctx)?,
+    "ModifiedChecker": one(&ModifiedChecker, Ck::Modified, &mut ctx)?,
+    "HashChecker": one(&HashChecker, Ck::Hash, &mut ctx)?,
+  });
+  if !ctx.tally.findings.is_empty() { return Err(format!("probe of the replaced-under-writer case hit an error: {}", ctx.tally.findings[0].what)); }
+  ctx.clear()?;
+  Ok(out)
+}
+
 /// Removes the scratch directory also when the harness unwinds.
 struct ScratchGuard(PathBuf);
 impl Drop for ScratchGuard { fn drop(&mut self) { cleanup(&self.0); } }
@@ -1465,6 +1539,7 @@ fn run_enumeration(args: &Args, root: &Path) -> i32 {
   rep.max_violations = 12;
   let sets = name_sets();
   let (extra, names_skipped) = match probe_names(root) { Ok(x) => x, Err(e) => fail(root, &format!("C13 name probe: {}", e)) };
+  let replaced_probe = match probe_replaced_under_writer(root) { Ok(v) => v, Err(e) => fail(root, &format!("C13 replaced-under-writer probe: {}", e)) };
   let extra_only: Vec<Name> = extra.iter().map(|(n, _)| n.clone()).collect();
   let extra_sets = extra_name_sets(&extra_only);
   let (sizes, wall_cap) = match args.tier { Tier::Quick => (QUICK_SIZES, 22.0), Tier::Thorough => (FULL_SIZES, 570.0) };
@@ -1573,6 +1648,8 @@ fn run_enumeration(args: &Args, root: &Path) -> i32 {
      routes (the writer route writes through the link). link -> link keeps the link and modifies the target (file -> file through \
      the link in place, otherwise the target is re-created directly); link <-> plain re-materialises. Two of them take part in the \
      sequences. No dangling links, chains or loops.", links.len())));
+  rep.set("absent_under_open_writer", json!("the Absent state is reached under an open pie writer in three ways, each a route of its own for every checker (untouched, every pair with Absent as S1, sequences): remove_file(path); rename(path, sibling); hard_link(path, sibling) + remove_file(path). Oracle for all three: the writer stamp equals the path stamp of the absent path."));
+  rep.set("path_replaced_under_open_writer_recorded_not_judged", replaced_probe);
   rep.set("alphabet_states", json!({"plain_base": n_plain, "symlinks": links.len(), "base": plan.n_base, "extended_files": n_ext_files, "extended_dirs": n - plan.n_base - n_ext_files, "total": n}));
   rep.set("file_state_selection", json!(format!(
     "base: sizes {:?} with the base pattern and its last-byte / first-byte variants ({} contents) at both mtimes; extended: {} extra \
@@ -1623,8 +1700,8 @@ fn run_enumeration(args: &Args, root: &Path) -> i32 {
   rep.set("rule", json!(
     "states: absent, regular file, directory, symbolic link to a regular file, symbolic link to a directory. \
      every state P of the alphabet: path.write on P; every (S1, checker, route): stamp then check untouched; every ordered \
-     pair (S1,S2) x {Exists,Modified,Hash} x routes {path, fresh reader, writer that produced S1 (files), writer whose file \
-     was removed (absent)}: materialise S1 on the real file system, stamp, materialise S2, check, compare with the \
+     pair (S1,S2) x {Exists,Modified,Hash} x routes {path, fresh reader, writer that produced S1 (files), writer whose path \
+     became absent under it in three ways: file removed / renamed away to a sibling / hard-linked to a sibling then removed (absent)}: materialise S1 on the real file system, stamp, materialise S2, check, compare with the \
      reference relation; every length-3 sequence over the sequence alphabet with stamps of earlier states checked at later \
      ones; smallest states first"));
   rep.set("bounds", json!({
@@ -1889,6 +1966,8 @@ mod test {
   fn routes_apply() {
     assert!(Route::Writer.applies(Kind::File) && !Route::Writer.applies(Kind::Dir) && !Route::Writer.applies(Kind::Absent));
     assert!(Route::WriterRemoved.applies(Kind::Absent) && !Route::WriterRemoved.applies(Kind::File));
+    for r in ABSENT_WRITER_ROUTES { assert!(r.applies(Kind::Absent) && !r.applies(Kind::File) && !r.applies(Kind::Dir)); assert_eq!(Route::parse(r.as_str()), Some(r)); }
+    assert!((0..3).map(absent_route_at).collect::<BTreeSet<_>>().len() == 3);
     assert!(Route::Path.applies(Kind::Dir) && Route::Reader.applies(Kind::Dir));
   }
 }
